@@ -253,6 +253,12 @@ class SxInt:
     def __neg__(s):
         return SxInt(-s.t)
 
+    def __truediv__(s, o):
+        return SxReal(toreal(s) / toreal(o))
+
+    def __rtruediv__(s, o):
+        return SxReal(toreal(o) / toreal(s))
+
     def __lt__(s, o):
         return SxBool(toreal(s) < toreal(o)) if isreal(o) else SxBool(s.t < toint(o))
 
@@ -318,6 +324,12 @@ class SxReal:
         return SxReal(s.t * toreal(o))
 
     __rmul__ = __mul__
+
+    def __truediv__(s, o):
+        return SxReal(s.t / toreal(o))
+
+    def __rtruediv__(s, o):
+        return SxReal(toreal(o) / s.t)
 
     def __mod__(s, o):
         if not (isinstance(o, int) and o == 1):
